@@ -29,12 +29,12 @@ META = {
     "rule": "one path per job sequence (j1..jn) index; every job of the sequence is compared with its fresh-process result; "
             "non-trivial = the last job produces at least one command and shares vendor or ACL with an earlier job",
     "explanation": "",
-    "assumptions": ["job corpus: 12 jobs over shipped huawei/cisco/arista/nexus rulebooks (incl. huawei.bgp.undo_commit, cisco.misc.ssh_key, "
+    "assumptions": ["job corpus: 17 jobs over shipped huawei/cisco/arista/nexus rulebooks (incl. huawei.bgp.undo_commit, cisco.misc.ssh_key, "
                     "common.default_instead_undo), a synthetic rulebook whose logic mutates its rule argument, and jobs sharing one "
                     "compiled ACL", "each path starts with annet's known caches cleared, so the history is exactly the sequence",
                     "fresh-process results are computed once per run in subprocesses"],
     "outside": ["state that neither the caches nor the compared results expose", "generators / storage layers"],
-    "bounds": {"quick": "all sequences of length 2 over 12 jobs", "thorough": "all sequences of length 3"},
+    "bounds": {"quick": "all sequences of length 2 over 17 jobs", "thorough": "all sequences of length 3"},
 }
 
 SYN_RB = "x * %logic=common.default_instead_undo\ny *\nb *\n    x * %logic=common.default_instead_undo\n"
@@ -57,6 +57,18 @@ JOBS = [
     ("nexus", None, {"vlan 2,3": {}, "hostname n": {}}, {"vlan 2-3,6": {}, "ip ssh version 2": {}, "hostname n": {}}, None, False),
     ("huawei", None, {"ip ip-prefix PL index 5 permit 10.0.0.0 8": {}, "ip ip-prefix PL index 10 permit 10.1.0.0 16": {}},
      {"ip ip-prefix PL index 5 permit 10.0.0.0 8": {}}, None, False),
+    # same vendor, other hardware families (huawei.rul is a template branching on hw.Huawei.CE / NE / Quidway)
+    ("model:Huawei NE40E", None, {"interface GE0/1/0": {"trust dscp": {}, "description a": {}}, "sysname a": {}},
+     {"interface GE0/1/0": {"trust 8021p": {}}, "sysname b": {}}, None, False),
+    ("model:Huawei CE6870", None, {"interface 10GE1/0/1": {"trust dscp": {}, "description a": {}, "port link-type trunk": {}}, "sysname a": {}},
+     {"interface 10GE1/0/1": {"trust 8021p": {}}, "sysname b": {}}, None, False),
+    ("model:Huawei S5700", None, {"interface GigabitEthernet0/0/1": {"trust dscp": {}, "description a": {}, "bpdu enable": {}}, "sysname a": {}},
+     {"interface GigabitEthernet0/0/1": {"trust 8021p": {}}, "stp mode mstp": {}}, None, False),
+    # nested rows that the rulebook ignores / does not know (make_diff drops them from its own copies only)
+    ("cisco", None, {"interface GigabitEthernet1": {"no ip address": {}, "description a": {}, "zzz unknown": {}}, "hostname r": {}},
+     {"interface GigabitEthernet1": {"no ip address": {}, "description b": {}}, "hostname r": {}}, None, False),
+    ("arista", None, {"router bgp 1": {"no neighbor 1.1.1.1 shutdown": {}, "neighbor 1.1.1.1 remote-as 2": {}}},
+     {"router bgp 1": {"neighbor 1.1.1.1 remote-as 3": {}}}, None, False),
 ]
 
 
@@ -95,7 +107,11 @@ def run_job(j):
     from annet.annlib.rbparser.acl import compile_acl_text
     from annet.patching import Orderer
     vendor, rbtext, old, new, acl, comments = JOBS[j]
-    hw = make_hw(vendor)
+    if vendor.startswith("model:"):
+        from annet.annlib.netdev.views.hardware import HardwareView
+        hw = HardwareView(vendor[6:], None)
+    else:
+        hw = make_hw(vendor)
     dev = StubDevice(hw)
     rb = make_rb(rbtext, hw.vendor) if rbtext else rulebook.get_rulebook(hw)
     old_t, new_t = tree(old), tree(new)
@@ -156,7 +172,8 @@ def check_sequence(seq):
         if json.loads(json.dumps(res2)) != want:
             return False, {"sequence": seq, "position": pos, "job": j, "repeat": True}, "result-changes-when-repeated:job%d" % j, True
         last = res
-    related = any(JOBS[a][0] == JOBS[seq[-1]][0] or (JOBS[a][4] and JOBS[a][4] == JOBS[seq[-1]][4]) for a in seq[:-1])
+    vend = lambda j: "huawei" if JOBS[j][0].startswith("model:Huawei") else JOBS[j][0]
+    related = any(vend(a) == vend(seq[-1]) or (JOBS[a][4] and JOBS[a][4] == JOBS[seq[-1]][4]) for a in seq[:-1])
     return True, None, None, bool(last and last["cmds"]) and related
 
 
